@@ -169,6 +169,9 @@ def main(argv=None):
                     covers_sat += 1
                 elif o['verdict'] == 'vacuous' and o['name'] == 'cover.requires':
                     errors.append('vacuous precondition: %s' % oid)
+                elif o['verdict'] == 'vacuous':
+                    # a path that reaches its end under contradictory assumptions proves nothing: vacuity guard (undecided)
+                    undecided.append('%s path %d: reached under contradictory assumptions (vacuous)' % (oid, o['path']))
                 continue
             if o['kind'] == 'applicability' and o['verdict'] != 'proved':
                 # a condition under which the executor's model of the code applies could not be established: the unit is
